@@ -19,6 +19,7 @@
 #include <yaclib/async/make.hpp>
 #include <yaclib/async/run.hpp>
 #include <yaclib/async/shared_contract.hpp>
+#include <yaclib/async/share.hpp>
 #include <yaclib/async/shared_future.hpp>
 #include <yaclib/exe/executor.hpp>
 #include <yaclib/exe/manual.hpp>
@@ -236,6 +237,7 @@ struct BehD {
 struct StepD {
   int id = 0;
   char sig = 'V';
+  char spell = 0;  // how the parameter is SPELLED (0 = by value): r T&&, c const T&, a auto&&, g auto (R) / a generic constrained to V (V)
   Md mode = Md::Inline;
   ExRef ex;
   BehD beh;
@@ -483,6 +485,38 @@ struct Fn {
     return Body<Ret>(d, ToR(a));
   }
 };
+// parameter SPELLINGS other than "by value": the first template argument of Fn is the parameter type itself (Res&&,
+// const Res&, …) or one of these tags for generic parameters
+struct AnyRef {};   // template <typename T> operator()(T&&)   — `auto&&`: invocable with everything, hence a Result callback
+struct AnyVal {};   // template <typename T> operator()(T)     — `auto`
+struct SameVal {};  // a generic parameter constrained to the value type: a value callback
+template <typename Ret>
+struct Fn<AnyRef, Ret> {
+  const StepD* d;
+  Token tok;
+  template <typename T>
+  Ret operator()(T&& a) {
+    return Body<Ret>(d, ToR(a));
+  }
+};
+template <typename Ret>
+struct Fn<AnyVal, Ret> {
+  const StepD* d;
+  Token tok;
+  template <typename T>
+  Ret operator()(T a) {
+    return Body<Ret>(d, ToR(a));
+  }
+};
+template <typename Ret>
+struct Fn<SameVal, Ret> {
+  const StepD* d;
+  Token tok;
+  template <typename T, typename = std::enable_if_t<std::is_same_v<std::decay_t<T>, Val>>>
+  Ret operator()(T&& a) {
+    return Body<Ret>(d, ToR(a));
+  }
+};
 template <typename Ret>
 struct Fn0 {
   const StepD* d;
@@ -601,6 +635,12 @@ static char KindOfSrc(const SrcD& s) {
   if (s.kind == "shared_ready" || s.kind == "shared_contract" || s.kind == "shared_handle") {
     return 'S';
   }
+  if (s.kind == "share") {
+    return 'F';
+  }
+  if (s.kind == "share_on") {
+    return 'O';
+  }
   return 'B';
 }
 static char KindOf(const ProgD& p) {
@@ -714,43 +754,103 @@ static Handle DetachFn(H&& h, const StepD& s, FnT&& fn) {
   return Handle{};
 }
 
-template <typename H, typename Arg>
+// Full: every return class; otherwise (the non-default spellings) int / Result / void: the dispatch on the PARAMETER does not
+// depend on what the functor returns, and every instantiation costs compile time
+template <typename H, typename Arg, bool Full>
 static Handle AttachArg(H&& h, const StepD& s) {
   switch (RetClass(s)) {
     case 'i':
       return AttachFn(std::move(h), s, Fn<Arg, Val>{&s, {}});
     case 'r':
       return AttachFn(std::move(h), s, Fn<Arg, Res>{&s, {}});
-    case 'F':
-      return AttachFn(std::move(h), s, Fn<Arg, Fut>{&s, {}});
-    case 'O':
-      return AttachFn(std::move(h), s, Fn<Arg, FutOn>{&s, {}});
-    case 'T':
-      return AttachFn(std::move(h), s, Fn<Arg, Tsk>{&s, {}});
-    case 'S':
-      return AttachFn(std::move(h), s, Fn<Arg, Shr>{&s, {}});
     case 'v':
       return DetachFn(std::move(h), s, Fn<Arg, void>{&s, {}});
     default:
-      W->bad = true;
-      return Handle{};
+      break;
   }
+  if constexpr (Full) {
+    switch (RetClass(s)) {
+      case 'F':
+        return AttachFn(std::move(h), s, Fn<Arg, Fut>{&s, {}});
+      case 'O':
+        return AttachFn(std::move(h), s, Fn<Arg, FutOn>{&s, {}});
+      case 'T':
+        return AttachFn(std::move(h), s, Fn<Arg, Tsk>{&s, {}});
+      case 'S':
+        return AttachFn(std::move(h), s, Fn<Arg, Shr>{&s, {}});
+      default:
+        break;
+    }
+  }
+  W->bad = true;
+  return Handle{};
 }
 template <typename H>
 static Handle AttachH(H&& h, const StepD& s) {
+  // a SharedFuture passes `const Result&` / `const V&` / `const E&`: the && spellings do not compile there
+  constexpr bool kUnique = !std::is_same_v<std::decay_t<H>, Shr>;
   switch (s.sig) {
     case 'R':
-      return AttachArg<H, Res>(std::move(h), s);
+      switch (s.spell) {
+        case 0:
+          return AttachArg<H, Res, true>(std::move(h), s);
+        case 'c':
+          return AttachArg<H, const Res&, false>(std::move(h), s);
+        case 'a':
+          return AttachArg<H, AnyRef, false>(std::move(h), s);
+        case 'g':
+          return AttachArg<H, AnyVal, false>(std::move(h), s);
+        case 'r':
+          if constexpr (kUnique) {
+            return AttachArg<H, Res&&, false>(std::move(h), s);
+          }
+          break;
+        default:
+          break;
+      }
+      break;
     case 'V':
-      return AttachArg<H, Val>(std::move(h), s);
+      switch (s.spell) {
+        case 0:
+          return AttachArg<H, Val, true>(std::move(h), s);
+        case 'c':
+          return AttachArg<H, const Val&, false>(std::move(h), s);
+        case 'g':
+          return AttachArg<H, SameVal, false>(std::move(h), s);
+        case 'r':
+          if constexpr (kUnique) {
+            return AttachArg<H, Val&&, false>(std::move(h), s);
+          }
+          break;
+        default:
+          break;
+      }
+      break;
     case 'E':
-      return AttachArg<H, PErr>(std::move(h), s);
+      switch (s.spell) {
+        case 0:
+          return AttachArg<H, PErr, true>(std::move(h), s);
+        case 'c':
+          return AttachArg<H, const PErr&, false>(std::move(h), s);
+        default:  // `E&&` does not compile: CallResolveState passes the stored error as an lvalue (std::get of Internal())
+          break;
+      }
+      break;
     case 'X':
-      return AttachArg<H, std::exception_ptr>(std::move(h), s);
+      switch (s.spell) {
+        case 0:
+          return AttachArg<H, std::exception_ptr, true>(std::move(h), s);
+        case 'c':
+          return AttachArg<H, const std::exception_ptr&, false>(std::move(h), s);
+        default:
+          break;
+      }
+      break;
     default:
-      W->bad = true;
-      return Handle{};
+      break;
   }
+  W->bad = true;
+  return Handle{};
 }
 static Handle Attach(Handle h, const StepD& s) {
   if (auto* f = std::get_if<Fut>(&h)) {
@@ -874,6 +974,22 @@ static Handle BuildSrc(const SrcD& s) {
     ++W->virt_news;
     return Handle{Shr{it->second.handles[0]}};
   }
+  if (k == "share" || k == "share_on") {
+    // Share(kept handle) : Future / Share(kept handle, e) : FutureOn that carries e (async/share.hpp)
+    auto it = W->kept.find(s.h);
+    if (it == W->kept.end()) {
+      W->bad = true;
+      return Handle{};
+    }
+    const Shr& sh = it->second.handles[0];
+    if (k == "share") {
+      cnt::On on;
+      return Handle{yaclib::Share(sh)};
+    }
+    yaclib::IExecutor& ex = Exec(s.ex);
+    cnt::On on;
+    return Handle{yaclib::Share(sh, ex)};
+  }
   if (k == "shared_ready" || k == "shared_contract") {
     cnt::On on;
     auto [f, p] = yaclib::MakeSharedContract<Val, PErr>();
@@ -986,11 +1102,18 @@ static bool ParseStep(const std::vector<std::string>& t, size_t i, StepD& s) {
     return false;
   }
   long id;
-  if (!ParseLong(t[i], id) || id < 0 || t[i + 1].size() != 1 || std::strchr("RVEX", t[i + 1][0]) == nullptr) {
+  if (!ParseLong(t[i], id) || id < 0 || t[i + 1].empty() || t[i + 1].size() > 2 || std::strchr("RVEX", t[i + 1][0]) == nullptr) {
     return false;
   }
   s.id = static_cast<int>(id);
   s.sig = t[i + 1][0];
+  s.spell = t[i + 1].size() == 2 ? t[i + 1][1] : 0;
+  {
+    const char* ok = s.sig == 'R' ? "rcag" : s.sig == 'V' ? "rcg" : s.sig == 'E' ? "c" : "c";
+    if (s.spell != 0 && std::strchr(ok, s.spell) == nullptr) {
+      return false;
+    }
+  }
   const std::string& m = t[i + 2];
   if (m == "inline") {
     s.mode = Md::Inline;
@@ -1037,7 +1160,16 @@ static bool ParseSrc(const std::vector<std::string>& t, size_t i, SrcD& s) {
   if (s.kind == "contract" || s.kind == "shared_contract") {
     return n == 2 && ParseP(t[i + 1], s.p) && ParseFul(t[i + 2], s.ful);
   }
-  if (s.kind == "shared_handle") {
+  if (s.kind == "share_on") {
+    long h;
+    if (n != 2 || !ParseEx(t[i + 1], s.ex) || t[i + 2].size() < 2 || t[i + 2][0] != 's' || !ParseLong(t[i + 2].substr(1), h) ||
+        !W->kept.count(static_cast<int>(h))) {
+      return false;
+    }
+    s.h = static_cast<int>(h);
+    return true;
+  }
+  if (s.kind == "shared_handle" || s.kind == "share") {
     long h;
     if (n != 1 || t[i + 1].size() < 2 || t[i + 1][0] != 's' || !ParseLong(t[i + 1].substr(1), h) || !W->kept.count(static_cast<int>(h))) {
       return false;
